@@ -539,6 +539,89 @@ def d8_optional_keys(ctx, js):
                   'the single-structure unwrapping is reachable with full_output=True (conditions excluded here: %s): obsdata is no longer a list of structures and load_json_dict picks element k of the structure itself' % neg, js.loc(un[0]))
 
 
+def d9_placeholders(ctx, js, rule='C11-D3'):
+    """_ol_from_dict / _od_from_list_and_dict are a pure pair on nested dict / list structures: the extracted functions are evaluated
+    with stand-in classes for Obs and Corr on a set of nested dictionaries (objects directly in the dict, in nested dicts, in mixed
+    lists, in lists of lists, pure lists of Obs, arrays); re-inserting the extracted objects must give back the original structure"""
+    import copy as _copy
+    import re as _re
+    key = 'json#dict-placeholders-roundtrip'
+    fa, fb = js.func('_ol_from_dict'), js.func('_od_from_list_and_dict')
+    for f in (fa, fb):
+        if any(isinstance(x, (ast.Import, ast.ImportFrom, ast.Global, ast.While, ast.With, ast.Try)) for x in walk(f, skip_nested_defs=False)):
+            ctx.unrec(rule, key, '%s is not plain structure handling: not evaluated' % f.name, js.loc(f))
+            return
+    try:
+        import numpy as _np
+    except Exception as ex_:
+        ctx.unrec(rule, key, 'numpy unavailable: %r' % ex_)
+        return
+
+    class Obs:
+        def __init__(self, tag):
+            self.tag = tag
+
+        def __repr__(self):
+            return 'Obs<%s>' % self.tag
+
+    class Corr:
+        def __init__(self, tag):
+            self.tag = tag
+
+        def __repr__(self):
+            return 'Corr<%s>' % self.tag
+    safe = {'isinstance': isinstance, 'len': len, 'int': int, 'str': str, 'bool': bool, 'all': all, 'any': any, 'list': list, 'dict': dict, 'tuple': tuple, 'Exception': Exception,
+            'ValueError': ValueError, 'TypeError': TypeError, 'range': range, 'enumerate': enumerate, 'zip': zip, 'type': type, 'sorted': sorted, 'set': set}
+    try:
+        ns = {'__builtins__': safe, 'Obs': Obs, 'Corr': Corr, 'np': _np, 're': _re}
+        mod_ = ast.Module(body=[_copy.deepcopy(fa), _copy.deepcopy(fb)], type_ignores=[])
+        for fn_ in mod_.body:
+            fn_.decorator_list = []
+        exec(compile(ast.fix_missing_locations(mod_), '<placeholders>', 'exec'), ns)
+        to_list, from_list = ns[fa.name], ns[fb.name]
+    except Exception as ex_:
+        ctx.unrec(rule, key, 'cannot evaluate: %r' % ex_, js.loc(fa))
+        return
+
+    def o(k):
+        return Obs(k)
+    arr = _np.array([1.0, 2.0])
+    cases = [
+        {'a': o(1)},
+        {'a': o(1), 'b': o(2), 'c': 3, 'd': 'text'},
+        {'a': {'b': o(1), 'c': {'d': o(2)}}, 'e': o(3)},
+        {'fit': ['mass', o(1), 0.5], 'other': o(2)},
+        {'l': [o(1), o(2), o(3)], 'after': o(4)},
+        {'ll': [[o(1), 'x'], [o(2), [o(3), 1]]], 'z': o(4)},
+        {'c': Corr(1), 'arr': arr, 'mixed': [Corr(2), {'in': o(5)}, [o(6), o(7)]], 'last': o(8)},
+        {'plain': [1, 2, 'three'], 'none': None, 'one': o(9)},
+    ]
+
+    def same(x, y):
+        if isinstance(x, dict):
+            return isinstance(y, dict) and list(x) == list(y) and all(same(x[k_], y[k_]) for k_ in x)
+        if isinstance(x, list):
+            return isinstance(y, list) and len(x) == len(y) and all(same(a_, b_) for a_, b_ in zip(x, y))
+        if isinstance(x, (Obs, Corr, _np.ndarray)):
+            return x is y
+        return type(x) is type(y) and x == y
+    wrong = []
+    for d in cases:
+        try:
+            ol, nd = to_list(d)
+            back = from_list(ol, nd)
+        except NameError as ex_:
+            ctx.unrec(rule, key, 'cannot evaluate: %r' % ex_, js.loc(fa))
+            return
+        except Exception as ex_:
+            wrong.append((repr(d)[:90], 'raised %r' % ex_))
+            continue
+        if not same(d, back):
+            wrong.append((repr(d)[:90], repr(back)[:90]))
+    ctx.check(rule, key, not wrong, 'every object comes back in its own slot (%d nested structures evaluated)' % len(cases),
+              'the structure %s is re-assembled as %s: a placeholder does not carry the position of its object in the list' % wrong[0] if wrong else '', js.loc(fa))
+
+
 def run(ctx):
     ctx.rule('C11-D1', 'emitted document is contained in the shipped schema')
     ctx.rule('C11-D2', 'writer/reader key and type-tag agreement')
@@ -552,6 +635,7 @@ def run(ctx):
     ctx.guarded('C11-D2', 'json@keys', d2_keys, ctx, js)
     ctx.guarded('C11-D3', 'json@siblings', d3_siblings, ctx, js)
     ctx.guarded('C11-D3', 'json@optional-keys', d8_optional_keys, ctx, js)
+    ctx.guarded('C11-D3', 'json@placeholders', d9_placeholders, ctx, js)
     ctx.guarded('C11-D4', 'json@offsets', d4_offsets, ctx, js)
     ctx.guarded('C11-D5', 'json@effects', d5_effects, ctx, js)
     ctx.guarded('C11-D6', 'json@transports', d6_transports, ctx, js)
